@@ -353,7 +353,8 @@ Check_C11(s, e, o, s2) ==
 (* C12 broker keep-alive kept for connected and sleeping clients            *)
 (* obsLastB = time of the last packet observed on the broker connection.   *)
 Check_C12(s, e, o, s2, obsLastB) ==
-    IF s.acc /\ Live(s) /\ s2.clientOK /\ s.st \in {"active", "asleep"} /\ s.ka > 0 /\ ~s2.dying
+    IF e.t = "End" THEN {}     \* the epilogue of the harness is not part of the history
+    ELSE IF s.acc /\ Live(s) /\ s2.clientOK /\ s.st \in {"active", "asleep"} /\ s.ka > 0 /\ ~s2.dying
        /\ 2 * (o.now - (IF o.outB # <<>> THEN o.now ELSE obsLastB)) > 3 * TicksPerSec * s.ka
     THEN {Tag("C12", "broker-starved", s.st \o (IF s.st = "asleep" /\ s.sleepDur <= TicksPerSec * s.ka THEN "-short-sleep" ELSE ""))}
     ELSE IF s.acc /\ Live(s) /\ s2.clientOK /\ s.st \in {"active", "asleep"} /\ s.ka > 0
